@@ -13,7 +13,7 @@ sys.path.insert(0, os.path.dirname(os.path.abspath(__file__)))
 import dlib  # noqa: E402
 
 from traits.api import (  # noqa: E402
-    ComparisonMode, Event, HasTraits, TraitError, TraitType, Undefined, Uninitialized, observe, on_trait_change,
+    Any, ComparisonMode, Event, HasTraits, TraitError, TraitType, Undefined, Uninitialized, observe, on_trait_change,
     pop_exception_handler, push_exception_handler)
 from traits.observation import api as obs_api  # noqa: E402
 
@@ -152,13 +152,20 @@ def observe_sink(event):
 _classes = {}
 
 
-def make_class(kind, mode, default, statics, orig=False):
-    key = (kind, mode, default, tuple(sorted(statics)), bool(orig))
+def make_class(kind, mode, default, statics, orig=False, variant=""):
+    key = (kind, mode, default, tuple(sorted(statics)), bool(orig), variant)
     if key in _classes:
         return _classes[key]
     cls_t = PickOriginal if orig else Pick
-    inner = cls_t(default_value=POOL[default], comparison_mode=MODES[mode]) if kind == "normal" else Pick()
-    ns = {"x": inner if kind == "normal" else Event(inner)}
+    if variant == "any":              # built-in Any: no validate function at all (the `validate == NULL` branches)
+        inner = Any(POOL[default], comparison_mode=MODES[mode]) if kind == "normal" else None
+        ns = {"x": inner if kind == "normal" else Event()}
+    elif variant == "ddef" and kind == "normal":      # dynamic default: _x_default method instead of a constant
+        inner = cls_t(comparison_mode=MODES[mode])
+        ns = {"x": inner, "_x_default": (lambda self, d=default: POOL[d])}
+    else:
+        inner = cls_t(default_value=POOL[default], comparison_mode=MODES[mode]) if kind == "normal" else Pick()
+        ns = {"x": inner if kind == "normal" else Event(inner)}
     if "any" in statics:
         def _anytrait_changed(self, name, old, new):
             if name == "x":
@@ -218,7 +225,8 @@ def make_obs(hid):
 
 
 def run_case(case):
-    a = make_class(case["kind"], case["mode"], case["default"], case["statics"], case.get("orig", False))()
+    a = make_class(case["kind"], case["mode"], case["default"], case["statics"], case.get("orig", False),
+                   case.get("variant", ""))()
     RAISES.clear()
     RAISES.update(case["raises"])
     keep = []
